@@ -90,7 +90,7 @@ func (fx *FnExec) doCall(st *State, instr ssa.Instruction, c *ssa.CallCommon) []
 	// caller-side call-site clauses (the caller's locals are visible)
 	if fx.contract != nil {
 		for _, cs := range fx.contract.Callsites {
-			if !strings.HasSuffix(key, cs.Callee) {
+			if !calleeMatches(key, cs.Callee) {
 				continue
 			}
 			env := fx.specEnv(st, fx.entry, nil, true)
@@ -615,4 +615,20 @@ func (m *ModSpec) ResolveAt(fx *FnExec, pkg *types.Package, names []string, argV
 		}
 	}
 	return ms
+}
+
+// calleeMatches: a callsite clause names its callee by a suffix of the function key that starts at a
+// name boundary ("AddSigner" matches "(crypto.MultiPublicKeyI).AddSigner", not "bft.ErrUnableToAddSigner").
+func calleeMatches(key, suffix string) bool {
+	if !strings.HasSuffix(key, suffix) {
+		return false
+	}
+	if len(key) == len(suffix) {
+		return true
+	}
+	switch key[len(key)-len(suffix)-1] {
+	case '.', ')', '/', '*', '(':
+		return true
+	}
+	return suffix[0] == '(' || suffix[0] == '<'
 }
